@@ -75,3 +75,24 @@ Lemma no_host_hypothesis_witness :
   exists u, parse_url true bad_hp bad_hp bad_hd None None (B "a://x") = POk u
             /\ ser u = B "a://:" /\ wf_b u = false.
 Proof. eexists. split; [vm_compute; reflexivity|]. split; vm_compute; reflexivity. Qed.
+
+(* the file scheme: absolute (host, drive letters, '|'), and references against a file base *)
+Definition ex_file (input expect : string) : bool :=
+  match parse_url true ex_hp ex_hp ex_hd None None (B input) with
+  | POk u => file_involved None (B input) && list_eqb (ser u) (B expect) && wf_b u && host_text_b u
+  | _ => false
+  end.
+
+Lemma file_examples :
+  ex_file "file://h/C|/x" "file:///C:/x" = true /\ ex_file "file:///C|" "file:///C|" = true
+  /\ ex_file "file:\\h\p?q#f" "file://h/p?q#f" = true /\ ex_file "file:x" "file:///x" = true
+  /\ ex_join "file://h/a/b?q#f" "/C|/x" "file:///C:/x" = false   (* file_involved: outside ex_join's class *)
+  /\ match parse_url true ex_hp ex_hp ex_hd None None (B "file://h/a/b?q#f") with
+     | POk b => base_ok b && host_text_b b
+                && match parse_url true ex_hp ex_hp ex_hd None (Some b) (B "../c") with
+                   | POk u => list_eqb (ser u) (B "file://h/c") && wf_b u && host_text_b u
+                   | _ => false
+                   end
+     | _ => false
+     end = true.
+Proof. vm_compute. repeat split. Qed.
